@@ -87,12 +87,14 @@ class C11:
         def op_a(t, depth=0):
             r = rng.random()
             if depth == 0 and cfg["record"] and r < 0.08:
-                return ["drain"]  # export_text(clear=True) while the other threads print
+                # export_text(clear=True), or save_text(clear=True) into a simulated file (open and
+                # write are yield points), while the other threads print
+                return ["drain", rng.choice(["export", "export", "save"])]
             if depth == 0 and rng.random() < 0.07:
                 # file fault during this output operation: the write is refused, or it is taken and the
                 # flush after it fails; the thread catches the OSError and carries on printing
                 inner = simple(t) if rng.random() < 0.7 else ["block", [simple(t) for _ in range(rng.randint(1, 2))]]
-                return ["ioerr", rng.choice(["write", "flush"]), inner]
+                return ["ioerr", rng.choice(["write", "flush", "write2"]), inner]
             if r < 0.55 or depth >= 2:
                 return simple(t)
             if r < 0.8 or depth > 0:
@@ -213,6 +215,8 @@ class Multi:
         self.captures = []  # (thread, expected string, got string)
         self.drained = []  # token lists returned by clearing exports taken while threads print
         self.captured_tokens = set()
+        self.save_files = {}
+        self.nsaves = 0
         self.capture_print_open = {}  # tid -> heights of the frames a captured print may be rendering right now
         self.phantom_seq = None
         self.capturing = {}  # tid -> depth of capture() blocks the thread is in
@@ -530,7 +534,18 @@ class Multi:
                 self.file.armed.pop(me, None)
         elif k == "drain":
             self.probes["draining_exports"] += 1
-            self.drained.append(TOKEN.findall(self.console.export_text(clear=True)))
+            if len(op) > 1 and op[1] == "save":
+                from checks import c15 as _c15
+                import rich.console as _rc
+
+                _c15._CURRENT[0] = self
+                _rc.open = _c15._fake_open
+                self.nsaves += 1
+                path = "sim://c11-t%d-%d.txt" % (self.sim.me().tid, self.nsaves)
+                self.console.save_text(path, clear=True)
+                self.drained.append(TOKEN.findall(self.save_files.pop(path).getvalue()))
+            else:
+                self.drained.append(TOKEN.findall(self.console.export_text(clear=True)))
         elif k == "dstart":
             self.probes["extra_starts"] += 1
             if o.tracker:
